@@ -139,7 +139,7 @@ impl FormatStringParser<'_> {
     }
 
     fn peek(&self, count: usize) -> Result<&str, Box<dyn Error>> {
-        if self.string.len() < count {
+        if self.string.len() < count || !self.string.is_char_boundary(count) {
             return Err("Unexpected EOF".into());
         }
 
@@ -148,7 +148,7 @@ impl FormatStringParser<'_> {
 
     fn advance_one(&mut self) -> Result<char, Box<dyn Error>> {
         let c = self.front()?;
-        self.string = &self.string[1..];
+        self.string = &self.string[c.len_utf8()..];
         Ok(c)
     }
 
